@@ -47,7 +47,7 @@ pub fn uses_th(op: Op) -> bool {
 
 pub fn draw_params(op: Op, max_n: u32, ctr: usize) -> P {
   let n = if uses_n(op) { e::choose(max_n + 1) as usize } else { 0 };
-  let pk = if uses_pred(op) { e::choose(3) } else { 0 };
+  let pk = if uses_pred(op) { e::choose(4) } else { 0 };
   let th = if uses_th(op) { Val::var() } else { Val::c(0) };
   let vs = if op == Op::StartWith { (0..e::choose(3)).map(|_| Val::var()).collect() } else { vec![] };
   P { n, th, pk, vs, ctr }
